@@ -166,6 +166,9 @@ def check(model: Model, run: Run) -> None:
     run.ob("W12-exact-consumption", ok, {"reads_on_stream_reader": [norm(r)[:50] for r in reads]})
     if not ok:
         run.fail(Finding("W12-exact-consumption", fi.qualname, f"reads={len(reads)}", "unpack_ldap_message does not consume exactly one outer SEQUENCE from the stream reader as its first step", model.loc(MSG, fi.node)))
+    # the reader primitives advance by exactly what was validated and keep no state that a sibling forgets to reset
+    from ..readerrules import lemma_no_consume_on_failure
+    lemma_no_consume_on_failure(model, run, "C01")
     # ---- purity of the writers (re-encoding is byte-identical) ------------------------------------------
     purity(model, run, ex)
     post_decode_mutation(model, run)
